@@ -29,7 +29,7 @@ def copy_workspace(repo, dest):
     subprocess.run(["rsync", "-a", "--delete",
                     "--exclude", "/target", "--exclude", ".git", "--exclude", "node_modules",
                     "--exclude", "/js-examples", "--exclude", "/pytorch-ref-tests",
-                    "--exclude", "/rten-convert", "--exclude", "*.rten", "--exclude", "/docs",
+                    "--exclude", "/rten-convert", "--exclude", "*.rten",
                     repo.rstrip("/") + "/", dest.rstrip("/") + "/"], check=True)
     cfg = os.path.join(dest, ".cargo")
     os.makedirs(cfg, exist_ok=True)
